@@ -8,6 +8,9 @@ import Driver.Sim
 import Driver.Mem
 import Driver.FileIO
 import Driver.Det
+import Driver.Util
+import Driver.Listing
+import Driver.Macro
 import Driver.Link
 
 def dispatch (line : String) : String :=
@@ -38,6 +41,10 @@ def dispatch (line : String) : String :=
   | "rd" :: args => Driver.FileIO.handleRd args
   | "det" :: args => Driver.Det.handle args
   | "detold" :: args => Driver.Det.handleBefore args
+  | "util" :: args => Driver.Util.handle args
+  | "unum" :: args => Driver.Util.handleNum args
+  | "lst" :: args => Driver.Listing.handle args
+  | "mexp" :: args => Driver.Macro.handleMexp args
   | "link" :: args => Driver.Link.handle args
   | _ => "bad-op"
 
